@@ -25,6 +25,9 @@ func c02Imports(r *Run) {
 		"C02.Q7": "node eligibility (selector, required affinity, NoSchedule/NoExecute taints) is what the final state is defined over"})
 	r.ImportFrom(runC08, map[string]string{"C08.R1": "C02.Q8"}, map[string]string{
 		"C02.Q8": "update deletions/creations are withheld exactly by the parent's pause/freeze annotations (a rollout resumes when they are removed)"})
+	r.Floor("C02.Q10", 3)
+	r.ImportFrom(runC10, map[string]string{"C10.R8": "C02.Q10"}, map[string]string{
+		"C02.Q10": "the up-to-date comparison and pod creation build the node-resources annotation key from the same roles (otherwise a fresh pod is judged outdated and replaced for ever: no fixpoint)"})
 	r.Floor("C02.Q9", 6)
 	r.ImportFrom(runC03, map[string]string{"C03.R3": "C02.Q9"}, map[string]string{
 		"C02.Q9": "the creation/deletion budgets are computed from the matching counters and spec values, percentages rounded up (a budget that is wrongly 0 stalls the rollout for ever)"})
@@ -118,6 +121,10 @@ func c05ActiveScan(r *Run, site *decisionSite) {
 
 func c07Imports(r *Run) {
 	r.Floor("C07.R7", 6)
+	r.Floor("C07.R9", 1)
+	r.ImportFromIf(runC03, map[string]string{"C03.R3": "C07.R9"}, map[string]string{
+		"C07.R9": "every input the limits function reads is filled by the planner — in particular the credit for old pods that are already unavailable, without which crash-looping pods of the failed canary are never replaced after the rollback"},
+		func(o *Obligation) bool { return strings.Contains(o.Key, "limits inputs filled") })
 	r.ImportFrom(runC06, map[string]string{"C06.R3": "C07.R7"}, map[string]string{
 		"C07.R7": "the failed mark is sticky on the replica-set side: IsFailed starts from the persisted Canary-Failed condition and is only ever set to true (a user- or auto-failed canary stays failed until the rollback has been done)"})
 }
@@ -382,8 +389,6 @@ func c13Imports(r *Run) {
 	r.Floor("C13.R6", 2)
 	r.ImportFrom(runC10, map[string]string{"C10.R1": "C13.R5"}, map[string]string{
 		"C13.R5": "the hash stamped on every created pod is the replica set's TemplateGeneration, written unconditionally by the pod constructor (hash triple replica-set annotation / templateGeneration / pod annotation)"})
-	r.ImportFrom(runC05, map[string]string{"C05.R9": "C13.R7"}, map[string]string{
-		"C13.R7": "the list the active replica set is a pointer into is never reordered or compacted before clean-up (otherwise the name protected from deletion is another replica set's)"})
 	r.ImportFrom(runC12, map[string]string{"C12.R2": "C13.R6"}, map[string]string{
 		"C13.R6": "the replica sets considered for creation and clean-up are the owner's own (namespace- and name-label-scoped list): a foreign replica set is never collected, an own one never missed"})
 }
